@@ -603,6 +603,7 @@ def run_check(pid, tier, seed, nruns=None, workers=None):
         f"property={pid} tier={tier} runs={merged['runs']} steps={merged['steps']} "
         f"distinct_states={len(merged['states'])}{'' if sample_mod == 1 else ' (1-in-%d hash sample)' % sample_mod} "
         f"violations={n_viol} known={n_known} wall={wall:.1f}s"
+        + (f" violating_runs={len(merged['violations'])}{'+' if len(merged['violations']) >= 50 else ''}" if merged["violations"] else "")
     )
     if harness_errors:
         for e in harness_errors[:3]:
